@@ -264,7 +264,7 @@ Proof.
   destruct (is_error v) eqn:Herr; [left; auto|right; split; [reflexivity|]].
   destruct (do_convert orc T v) as [w|e] eqn:E.
   - destruct (do_convert_ok_type T v w Hrows Herr E) as [H1 H2]. auto.
-  - destruct (py_str orc v); cbn; auto.
+  - cbn; auto.
 Qed.
 
 (* ------------------------------------------------------------------------------------------- *)
@@ -275,7 +275,7 @@ Definition fallback_text (T : ctype) (v : value) : option str :=
   if is_error v then None else
   match do_convert orc T v with
   | Ok _ => None
-  | Raise _ => Some (match py_str orc v with Some s => s | None => safe_repr orc v end)
+  | Raise _ => Some (alt_text orc v)
   end.
 
 (* results that a second conversion does not keep (see the refutations in Props/C22.v) *)
@@ -395,9 +395,9 @@ Proof.
     { apply (do_convert_ok_type T v w Hrows Herr E). }
     unfold convert. rewrite Hw. rewrite (do_convert_again T v w Hrows Herr E Hdeg). reflexivity.
   - destruct (is_text v) eqn:Htext.
-    + destruct v; try discriminate. cbn [py_str] in *.
-      apply do_convert_str_sub in E. unfold convert. cbn [is_error py_str]. rewrite E. reflexivity.
-    + destruct (py_str orc v); apply Hfb; reflexivity.
+    + destruct v; try discriminate. change (alt_text orc (PStr sub s)) with s in *.
+      apply do_convert_str_sub in E. unfold convert. cbn [is_error]. rewrite E. reflexivity.
+    + apply Hfb; reflexivity.
 Qed.
 
 (* Text, Choice, Any and Blob never leave a text that converts differently: idempotent without conditions *)
